@@ -305,3 +305,118 @@ pub mod comments {
         crate::comment::rewrite_comment(orig, block_style, shape, config).ok()
     }
 }
+
+/// Byte spans (relative to the start of `text`) of the syntactic elements the
+/// properties talk about, from rustc's own parse of `text`:
+/// (kind, lo, hi, parent_kind) with kind one of item, assoc_item, foreign_item,
+/// stmt, field, variant, arm, param, arg (call / method-call argument), expr_field
+/// (struct-literal field). `lo` includes the element's outer attributes.
+pub fn ast_nodes(text: &str, config: &Config) -> Option<Vec<(String, usize, usize, String)>> {
+    use rustc_ast::visit::{self, Visitor};
+    use rustc_ast::{ast, visit::AssocCtxt};
+    use rustc_span::Span;
+
+    struct V {
+        base: u32,
+        out: Vec<(String, usize, usize, String)>,
+        parent: Vec<&'static str>,
+    }
+    impl V {
+        fn add(&mut self, kind: &str, span: Span, attrs: &[ast::Attribute]) {
+            if span.from_expansion() {
+                return;
+            }
+            let mut lo = span.lo().0;
+            for a in attrs {
+                if !a.span.from_expansion() && a.span.lo().0 < lo {
+                    lo = a.span.lo().0;
+                }
+            }
+            let hi = span.hi().0;
+            if lo < self.base || hi < lo {
+                return;
+            }
+            let parent = self.parent.last().copied().unwrap_or("root");
+            self.out.push((
+                kind.to_owned(),
+                (lo - self.base) as usize,
+                (hi - self.base) as usize,
+                parent.to_owned(),
+            ));
+        }
+    }
+    impl<'ast> Visitor<'ast> for V {
+        fn visit_item(&mut self, i: &'ast ast::Item) {
+            self.add("item", i.span, &i.attrs);
+            self.parent.push("item");
+            visit::walk_item(self, i);
+            self.parent.pop();
+        }
+        fn visit_assoc_item(&mut self, i: &'ast ast::AssocItem, ctxt: AssocCtxt) {
+            self.add("assoc_item", i.span, &i.attrs);
+            self.parent.push("assoc_item");
+            visit::walk_assoc_item(self, i, ctxt);
+            self.parent.pop();
+        }
+        fn visit_foreign_item(&mut self, i: &'ast ast::ForeignItem) {
+            self.add("foreign_item", i.span, &i.attrs);
+            visit::walk_item(self, i);
+        }
+        fn visit_stmt(&mut self, s: &'ast ast::Stmt) {
+            match &s.kind {
+                ast::StmtKind::Item(_) | ast::StmtKind::Empty => {}
+                ast::StmtKind::Let(l) => self.add("stmt", s.span, &l.attrs),
+                ast::StmtKind::Expr(e) | ast::StmtKind::Semi(e) => self.add("stmt", s.span, &e.attrs),
+                ast::StmtKind::MacCall(m) => self.add("stmt", s.span, &m.attrs),
+            }
+            self.parent.push("stmt");
+            visit::walk_stmt(self, s);
+            self.parent.pop();
+        }
+        fn visit_field_def(&mut self, f: &'ast ast::FieldDef) {
+            self.add("field", f.span, &f.attrs);
+            visit::walk_field_def(self, f);
+        }
+        fn visit_variant(&mut self, v: &'ast ast::Variant) {
+            self.add("variant", v.span, &v.attrs);
+            visit::walk_variant(self, v);
+        }
+        fn visit_arm(&mut self, a: &'ast ast::Arm) {
+            self.add("arm", a.span, &a.attrs);
+            visit::walk_arm(self, a);
+        }
+        fn visit_param(&mut self, p: &'ast ast::Param) {
+            self.add("param", p.span, &p.attrs);
+            visit::walk_param(self, p);
+        }
+        fn visit_expr_field(&mut self, f: &'ast ast::ExprField) {
+            self.add("expr_field", f.span, &f.attrs);
+            visit::walk_expr_field(self, f);
+        }
+        fn visit_expr(&mut self, e: &'ast ast::Expr) {
+            match &e.kind {
+                ast::ExprKind::Call(_, args) => {
+                    for a in args.iter() {
+                        self.add("arg", a.span, &a.attrs);
+                    }
+                }
+                ast::ExprKind::MethodCall(mc) => {
+                    for a in mc.args.iter() {
+                        self.add("arg", a.span, &a.attrs);
+                    }
+                }
+                _ => {}
+            }
+            visit::walk_expr(self, e);
+        }
+    }
+    with_crate(text, config, |krate, _ctx| {
+        let mut v = V {
+            base: krate.spans.inner_span.lo().0,
+            out: Vec::new(),
+            parent: Vec::new(),
+        };
+        visit::walk_crate(&mut v, krate);
+        v.out
+    })
+}
